@@ -110,16 +110,16 @@ theorem topK_isTopK {o : Ops α} (h : OrdLaws o) (k : Int) (ts : List (Tok α)) 
 /-- **index_in_range.**  Whatever the carrier does (NaN included, no law assumed): if `Sample`
     returns an id, it is an index into the logits — hence inside the vocabulary.  `hmem` ("topK
     returns tokens of its input") is proved for the sorting branch (`topK_isTopK`) and validated
-    per run for the heap branch. -/
-theorem index_in_range (o : Ops α) (P : Params α) (r : α) (logits : List α) (id : Nat)
+    per run for the heap branch.  Both variants (`fix`). -/
+theorem index_in_range (o : Ops α) (fix : Bool) (P : Params α) (r : α) (logits : List α) (id : Nat)
     (hmem : ∀ y ∈ topK o P.topK (mkTokens logits), y ∈ mkTokens logits)
-    (hS : Sample o false P r logits = .ok id) : id < logits.length := by
-  obtain ⟨t, hc, hid⟩ := Sample_ok o false P r logits id hS
+    (hS : Sample o fix P r logits = .ok id) : id < logits.length := by
+  obtain ⟨t, hc, hid⟩ := Sample_ok o fix P r logits id hS
   unfold sampleCore at hc
   have key : ∃ y ∈ mkTokens logits, y.id = id := by
     split at hc
     · exact ⟨t, greedy_mem o _ _ hc, hid⟩
-    · obtain ⟨y, hy, hyid⟩ := afterTopK_id o P r _ t hc
+    · obtain ⟨y, hy, hyid⟩ := afterTopK_id_any o fix P r _ t hc
       exact ⟨y, hmem y hy, by rw [hyid, hid]⟩
   obtain ⟨y, hy, hyid⟩ := key
   have := mkTokens_mem logits y hy
@@ -318,6 +318,47 @@ example :
     scaleOK X.ops (L.map (·.val)) (scaledOf X.ops xParams L) = true ∧
     softmaxOK X.ops (scaledOf X.ops xParams L) (softmaxVals X.ops (scaledOf X.ops xParams L)) = true ∧
     (afterTopK X.ops false xParams (.fin 1) L).toOption.map (·.id) = some 2 := by
+  decide
+
+/-- **sample_admissible_fixed_partial** — the same statement for the repaired code that /repo now
+    contains (`fix = true`: shift by the largest logit, then scale).  `L1` is the shifted list; the
+    contracts are those of the run on `L1` plus the shift's own (`-Inf` stays `-Inf`, order kept).
+    After the shift the scaled maximum is 0, so `guardOK` only fails when a NaN is present: the
+    F18 inputs now satisfy the hypotheses (witness `F18_nan_instead_of_token`, second half). -/
+theorem sample_admissible_fixed_partial {o : Ops α} (laws : Laws o) (P : Params α) (r : α)
+    (logits : List α) (id : Nat) (ht : o.beq P.temp o.zero = false)
+    (hS : Sample o true P r logits = .ok id)
+    (hk : IsTopK o P.topK (mkTokens logits) (topK o P.topK (mkTokens logits))) :
+    ∃ L1, shiftMax o (topK o P.topK (mkTokens logits)) = .ok L1 ∧
+    (guardOK o (scaledOf o P L1) = true →
+     scaleOK o ((topK o P.topK (mkTokens logits)).map (·.val)) (L1.map (·.val)) = true →
+     scaleOK o (L1.map (·.val)) (scaledOf o P L1) = true →
+     softmaxOK o (scaledOf o P L1) (softmaxVals o (scaledOf o P L1)) = true →
+     ∃ (v : α) (idx : Nat) (f : List (Tok α)) (x : Tok α),
+      logits[id]? = some v ∧ o.beq v o.negInf = false ∧
+      minP o P.minP (topP o P.topP (probsOf o P L1)) = .ok f ∧ f <+: probsOf o P L1 ∧
+      f[idx]? = some x ∧ x.id = id) := by
+  obtain ⟨t, hc, hid⟩ := Sample_ok o true P r logits id hS
+  unfold sampleCore at hc
+  simp only [ht, Bool.false_eq_true, if_false] at hc
+  obtain ⟨L1, hs, hrest⟩ := afterTopK_spec_fix laws.ord laws.addZero laws.beq P r _ t hc
+  refine ⟨L1, hs, ?_⟩
+  intro hg hsh hsc hsm
+  obtain ⟨idx, y, f, x, hy, hyid, hyv, hf, hpre, hx, hxid⟩ := hrest hg hsh hsc hsm
+  have hym : y ∈ mkTokens logits := hk.mem y (List.mem_of_getElem? hy)
+  have := mkTokens_mem logits y hym
+  rw [hyid, hid] at this
+  exact ⟨y.val, idx, f, x, this, hyv, hf, hpre, hx, by rw [hxid, hid]⟩
+
+/-- non-vacuity of the repaired variant's hypotheses on the former F18 input `[+Inf, 0]` -/
+example :
+    let L : List (Tok X) := [⟨0, .pinf⟩, ⟨1, .fin 0⟩]
+    let L1 : List (Tok X) := [⟨0, .fin 0⟩, ⟨1, .ninf⟩]
+    errOf (shiftMax X.ops L) = none ∧ (shiftMax X.ops L).toOption = some L1 ∧
+    guardOK X.ops (scaledOf X.ops xParams L1) = true ∧
+    scaleOK X.ops (L.map (·.val)) (L1.map (·.val)) = true ∧
+    scaleOK X.ops (L1.map (·.val)) (scaledOf X.ops xParams L1) = true ∧
+    softmaxOK X.ops (scaledOf X.ops xParams L1) (softmaxVals X.ops (scaledOf X.ops xParams L1)) = true := by
   decide
 
 /-! ### the laws are satisfiable -/
